@@ -22,4 +22,8 @@ NoTxErrT == kind # "txerr"
 \* "a transaction with a wrong nonce, one that cannot prepay gasLimit x gasPrice and then its value, one whose gas
 \*  limit is below its intrinsic cost or above the gas left in the block, makes the whole block invalid"
 InvalidTxInvalidatesBlockT == kind = "badblock" => ((X.err # "") <=> X.expectError)
+\* building a valid chain with the node's own block builder (GenerateChain / ApplyTransaction / StateDB) must not crash or
+\* refuse a transaction that is affordable by construction (recorded by the driver as a "genfail" line)
+GeneratorOKT == kind # "genfail"
+
 =============================================================================
